@@ -157,6 +157,28 @@ def run(chk):
             chk.fail("after training on a Dask array with serialised tasks (weights%s updated) the machine scores %s but a fresh machine with the same visible parameters scores %s"
                      % (" and variances" if j % 2 == 0 else "", np.asarray(mi.log_likelihood(probe)).tolist(), np.asarray(fresh.log_likelihood(probe)).tolist()),
                      {"w": hexlist(w), "mu": hexlist(mu), "var": hexlist(var), "X": hexlist(X), "probe": hexlist(probe), "history": "fit(dask array) under a serialising scheduler"})
+    # ---- per-feature / per-entry floors assigned AFTER the variances, with one entry raised above an existing variance while the largest floor
+    #      does not grow: the variances are clamped and the machine scores like a fresh one
+    for j in range(6 if chk.tier == "quick" else 100):
+        C, D = r.choice([1, 2, 3]), r.choice([2, 3])
+        w, mu, var, s = gen.gen_gmm(r, C, D, "unit")
+        probe = gen.sample_from(r, w, mu, var, 5)
+        thr_a = np.full(D, 1e-6)
+        thr_a[-1] = 10.0 * float(np.max(var))
+        m = make_gmm(w, mu, var, thr=thr_a.copy() if j % 2 else np.tile(thr_a, (C, 1)))
+        m.log_likelihood(probe)
+        thr_b = np.array(thr_a)
+        thr_b[0] = 2.0 * float(np.max(var[:, 0]))              # raised above every variance of feature 0; the largest floor is unchanged
+        m.variance_thresholds = thr_b.copy() if j % 2 else np.tile(thr_b, (C, 1))
+        fresh = GMMMachine(n_gaussians=C, weights=np.array(m.weights))
+        fresh.means = np.array(m.means)
+        fresh.variance_thresholds = 0.0
+        fresh.variances = np.array(m.variances)
+        Tb = np.broadcast_to(np.asarray(m.variance_thresholds, dtype=float), np.asarray(m.variances).shape)
+        chk.count(1, key=("array floors raised below the largest floor", j % 2))
+        if not (np.all(np.asarray(m.variances) >= Tb) and np.allclose(np.asarray(m.log_likelihood(probe)), np.asarray(fresh.log_likelihood(probe)), rtol=1e-12, atol=1e-12)):
+            chk.fail("after raising one entry of array-valued variance floors (largest floor unchanged) the variances %s are below the floors %s / the machine does not score like a fresh one"
+                     % (np.asarray(m.variances).tolist(), thr_b.tolist()), {"w": hexlist(w), "mu": hexlist(mu), "var": hexlist(var), "floors_before": hexlist(thr_a), "floors_after": hexlist(thr_b), "probe": hexlist(probe)})
     # ---- a weight set to exactly 0 (a pruned component) on a machine that held a positive weight there: the component no longer contributes.
     #      Oracle computed by hand (a fresh machine has held the constructor's 1/K in that slot, so it has the same history).
     for j in range(8 if chk.tier == "quick" else 300):
